@@ -1,12 +1,13 @@
 #!/usr/bin/env python3
 """Merge known_findings.d/*.json fragments into known_findings.json and delete the fragments."""
-import json, os
+import json, os, sys
+only = sys.argv[1] if len(sys.argv) > 1 else None
 ROOT = os.path.dirname(os.path.dirname(os.path.abspath(__file__)))
 main = json.load(open(os.path.join(ROOT, "known_findings.json")))
 d = os.path.join(ROOT, "known_findings.d")
 if os.path.isdir(d):
     for fn in sorted(os.listdir(d)):
-        if fn.endswith(".json"):
+        if fn.endswith(".json") and (only is None or fn == only + ".json"):
             frag = json.load(open(os.path.join(d, fn)))
             for key in ("findings", "fixed"):
                 ids = {f.get("id") for f in main[key]}
